@@ -298,6 +298,8 @@ func checkC04(w *World, r *Report) {
 	checkRenderReturnsBufferText(w, r)
 	checkSourceReachesScannerUnchanged(w, r)
 	checkScannerContextRestored(w, r)
+	checkLoadersReturnFileBytes(w, r)
+	checkParseGetsTheSource(w, r, "R04.13")
 }
 
 func onlyDebugRefs(v ssa.Value) bool {
@@ -957,4 +959,185 @@ func checkScannerContextRestored(w *World, r *Report) {
 		}
 	}
 	r.floor("switches of the tokenizer's source", n, 1)
+}
+
+// checkLoadersReturnFileBytes — R04.12: a loader hands on what the file contains.  In every Load
+// method of a loader that reads files, the source returned is — on every edge, through helpers —
+// the string conversion of the bytes read (os.ReadFile, io.ReadAll, a Read into a buffer): no
+// trimming, no prefix stripping (byte order mark), no replacement (line endings).  Those bytes lie
+// outside every delimiter; they are literal text and belong in the output exactly once — and a
+// template registered from a string keeps them, so the same source would render differently
+// depending on how it reached the engine.
+func checkLoadersReturnFileBytes(w *World, r *Report) {
+	iface, _ := w.lookup("Loader").Type().Underlying().(*types.Interface)
+	n := 0
+	for _, fn := range w.pkgFuncs() {
+		if fn.Name() != "Load" || fn.Signature.Recv() == nil || fn.Synthetic != "" || iface == nil {
+			continue
+		}
+		rt := fn.Signature.Recv().Type()
+		if !types.Implements(rt, iface) && !types.Implements(types.NewPointer(deref(rt)), iface) {
+			continue
+		}
+		// reads files (itself or through a helper one level down)
+		readsFile := func(g *ssa.Function) bool {
+			found := false
+			instrsOf(g, func(in ssa.Instruction) {
+				if c, ok := in.(ssa.CallInstruction); ok {
+					if h := calleeFunc(c); h != nil && h.Pkg() != nil && h.Pkg().Path() == "os" && (h.Name() == "ReadFile" || h.Name() == "Open" || h.Name() == "OpenFile") {
+						found = true
+					}
+				}
+			})
+			return found
+		}
+		direct := readsFile(fn)
+		if !direct {
+			instrsOf(fn, func(in ssa.Instruction) {
+				if c, ok := in.(ssa.CallInstruction); ok {
+					if h := c.Common().StaticCallee(); h != nil && isTwigFn(h) && len(h.Blocks) > 0 && readsFile(h) {
+						direct = true
+					}
+				}
+			})
+		}
+		if !direct {
+			continue
+		}
+		bad := ""
+		seen := map[ssa.Value]bool{}
+		var walk func(v ssa.Value, d int)
+		walk = func(v ssa.Value, d int) {
+			v = unspill(v)
+			if v == nil || seen[v] || d > 10 || bad != "" {
+				return
+			}
+			seen[v] = true
+			switch x := v.(type) {
+			case *ssa.Const:
+			case *ssa.Phi:
+				for _, e := range x.Edges {
+					walk(e, d+1)
+				}
+			case *ssa.Convert:
+				// string(bytes): fine whatever the bytes are (they are what was read)
+			case *ssa.Extract:
+				if c, ok := x.Tuple.(*ssa.Call); ok {
+					if h := c.Call.StaticCallee(); h != nil && isTwigFn(h) && len(h.Blocks) > 0 {
+						instrsOf(h, func(in ssa.Instruction) {
+							if ret, ok := in.(*ssa.Return); ok {
+								res := retResults(ret)
+								if x.Index < len(res) {
+									walk(res[x.Index], d+1)
+								}
+							}
+						})
+						return
+					}
+				}
+				bad = "the result of " + x.Tuple.String()
+			case *ssa.Call:
+				if h := x.Call.StaticCallee(); h != nil {
+					if isTwigFn(h) && len(h.Blocks) > 0 && h.Signature.Results().Len() == 1 {
+						instrsOf(h, func(in ssa.Instruction) {
+							if ret, ok := in.(*ssa.Return); ok {
+								walk(retResults(ret)[0], d+1)
+							}
+						})
+						return
+					}
+					if h.String() == "(*strings.Builder).String" || h.String() == "(*bytes.Buffer).String" {
+						return // the accumulated bytes of a read loop
+					}
+					bad = "the result of " + h.String()
+					return
+				}
+				bad = "the result of a call"
+			case *ssa.Slice:
+				bad = "a slice of the text read"
+			case *ssa.BinOp:
+				bad = "a concatenation"
+			case *ssa.Parameter, *ssa.UnOp, *ssa.Lookup, *ssa.TypeAssert:
+				// a field / table entry (in-memory loaders): not this rule's subject
+			}
+		}
+		instrsOf(fn, func(in ssa.Instruction) {
+			ret, ok := in.(*ssa.Return)
+			if !ok {
+				return
+			}
+			res := retResults(ret)
+			if len(res) == 0 || !isString(res[0].Type()) {
+				return
+			}
+			walk(res[0], 0)
+		})
+		n++
+		construct := "the source returned is the text of the file"
+		if bad == "" {
+			r.ok("R04.12", ssaName(fn), construct, w.posOf(fn.Pos()), "string(bytes read) on every edge", true)
+		} else {
+			r.bad("R04.12", ssaName(fn), construct, w.posOf(fn.Pos()), "the loader returns "+bad+" rather than the bytes it read: bytes of the file that lie outside every tag (a byte order mark, trailing blanks, line endings) never reach the output, while the same source registered from a string keeps them")
+		}
+	}
+	r.floor("file-reading Load methods", n, 1)
+}
+
+// checkParseGetsTheSource — R04.13 / R14.13: what is parsed is what was loaded or registered.
+// The argument of every Parser.Parse call is, on every edge, a parameter, a field (a template's
+// or compiled template's source), or the result a loader / decoder returned — never the result
+// of a string function applied to it (TrimPrefix of a byte order mark, TrimSpace, ReplaceAll of
+// line endings) and never a slice or a concatenation.  Such bytes are literal text; stripping
+// them "at offset 0" also makes the reading of a template depend on what precedes them.
+func checkParseGetsTheSource(w *World, r *Report, rule string) {
+	parse := w.method("Parser", "Parse")
+	n := 0
+	for _, fn := range w.pkgFuncs() {
+		instrsOf(fn, func(in ssa.Instruction) {
+			c, ok := in.(ssa.CallInstruction)
+			if !ok || calleeFunc(c) != parse {
+				return
+			}
+			args := callArgs(c)
+			if len(args) != 1 {
+				return
+			}
+			n++
+			bad := ""
+			seen := map[ssa.Value]bool{}
+			var walk func(v ssa.Value, d int)
+			walk = func(v ssa.Value, d int) {
+				v = unspill(v)
+				if v == nil || seen[v] || d > 10 || bad != "" {
+					return
+				}
+				seen[v] = true
+				switch x := v.(type) {
+				case *ssa.Phi:
+					for _, e := range x.Edges {
+						walk(e, d+1)
+					}
+				case *ssa.Slice:
+					bad = "a slice of the source"
+				case *ssa.BinOp:
+					bad = "a concatenation"
+				case *ssa.Call:
+					if g := x.Call.StaticCallee(); g != nil && g.Pkg != nil {
+						switch g.Pkg.Pkg.Path() {
+						case "strings", "bytes", "unicode/utf8", "regexp":
+							bad = "the result of " + g.String()
+						}
+					}
+				}
+			}
+			walk(args[0], 0)
+			construct := "the text handed to Parse is the source as loaded / registered"
+			if bad == "" {
+				r.ok(rule, ssaName(fn), construct, w.posOf(in.Pos()), "parameter, field or a loader's result on every edge", true)
+			} else {
+				r.bad(rule, ssaName(fn), construct, w.posOf(in.Pos()), "the parser is given "+bad+": bytes of the template that lie outside every tag are changed or dropped before they can become literal text, and a rule that looks at \"the start of the source\" reads the same bytes differently once something is written in front of them")
+			}
+		})
+	}
+	r.floor("calls of Parser.Parse", n, 3)
 }
